@@ -18,8 +18,10 @@
   * Only regular files directly addressed by their relative path are modelled; directories
     exist implicitly (all 256 subdirectories exist after `Open`).
 
-  The `cacheput` group (C11/C12) imports this file: the FS primitives, the codec and the
-  pieces of `put` are kept separate for that purpose.
+  The `cacheput` group (C11/C12) imports this file: the FS primitives (`FS.get/set/erase`, `overwrite`,
+  `chtimes`, `used`), the codec (`fmtEntry`, `parseEntry`) and the pieces of `put` (`copyFile` with its re-use
+  branch `refreshReused`, `putIndexEntry`) are kept separate for that purpose.  Extensional lemmas about them:
+  GIV.Lemmas.CacheFS / CacheOps (codec-free), CacheParse / CacheStored / CacheRefine (index codec), CacheTrim.
 -/
 import GIV.Basic
 import GIV.Gen.Cache
